@@ -22,6 +22,9 @@ type GenOpts struct {
 	OnExcluded      func(class string)
 	BigGenerate     bool // allow a $GENERATE at the 65 536-step limit
 	HostileLabels   bool // labels with arbitrary octets (escapes) in addition to plain ones
+	// KeywordLike (optional): directive arguments ($ORIGIN, $INCLUDE origin) must not start with a
+	// label for which it returns true (known finding directive-arg-keyword).
+	KeywordLike func(token string) bool
 	OnlyGenerate    bool // mostly $GENERATE items (plus $ORIGIN / $TTL and a few records)
 	IncludeHeavy    bool // many $INCLUDE items, chains up to the depth limit
 }
@@ -188,7 +191,7 @@ func (g *zgen) txt() []byte {
 		}
 		b := make([]byte, n)
 		for i := range b {
-			b[i] = "ab ;()\"\\x"[g.n(10, "tc")]
+			b[i] = "ab ;()\"\\x"[g.n(9, "tc")]
 		}
 		return b
 	}
@@ -439,6 +442,7 @@ func (g *zgen) items(st State, depth, max int) []Item {
 			} else {
 				it.Origin = AbsName(g.absName(st.Origin))
 			}
+			it.Origin = g.dirArg(it.Origin)
 		case k < 24 && !g.o.NoGenerate:
 			it = g.generate(&st)
 		case k < 32 && !g.o.NoIncludes && depth < MaxIncludeDepth && g.nfile < 12:
@@ -454,6 +458,24 @@ func (g *zgen) items(st State, depth, max int) []Item {
 		out = append(out, it)
 	}
 	return out
+}
+
+// dirArg patches the argument of a directive so that its first label is not keyword-like.
+func (g *zgen) dirArg(n MName) MName {
+	if g.o.KeywordLike == nil || len(n.Labels) == 0 {
+		return n
+	}
+	l := string(n.Labels[0])
+	if g.o.KeywordLike(l) || (len(n.Labels) == 1 && n.Kind == Rel && g.o.KeywordLike(l+".")) {
+		if g.o.OnExcluded != nil {
+			g.o.OnExcluded("directive-arg-keyword")
+		}
+		n.Labels = append([][]byte{append([]byte("o-"), n.Labels[0]...)}, n.Labels[1:]...)
+		if len(n.Labels[0]) > 63 {
+			n.Labels[0] = n.Labels[0][:63]
+		}
+	}
+	return n
 }
 
 // advance mirrors interp.file for one item (without recording anything).
@@ -517,6 +539,7 @@ func (g *zgen) include(st *State, depth int) Item {
 		} else {
 			it.IncOrigin = AbsName(g.absName(st.Origin))
 		}
+		it.IncOrigin = g.dirArg(it.IncOrigin)
 		o, err := st.Absolute(it.IncOrigin, false)
 		if err != nil {
 			it.HasIncOrigin = false
